@@ -9,5 +9,7 @@ rm -f lean/GldapModel/Generated/*.lean
 work/bin/verifextract -repo "${VERIF_REPO:-/repo}" -lean lean/GldapModel/Generated -inventory generated/inventory.txt
 (cd lean && lake build)
 cp "${VERIF_REPO:-/repo}/go.sum" go/harness/go.sum
-(cd go/harness && go build -tags verif -o ../../work/bin/verifharness . && go build -tags verif -race -o ../../work/bin/verifharness-race .)
+if [ "${VERIF_REPO:-/repo}" = /repo ]; then
+  (cd go/harness && go build -tags verif -o ../../work/bin/verifharness . && go build -tags verif -race -o ../../work/bin/verifharness-race .)
+fi  # otherwise the checks build the harness against the snapshot on first use
 echo setup-ok
